@@ -163,6 +163,7 @@ class Routing(Interface):
     """Class for handling KNXnet/IP multicast communication."""
 
     __slots__ = (
+        "_disconnecting",
         "_flow_control",
         "cemi_received_callback",
         "individual_address",
@@ -202,6 +203,7 @@ class Routing(Interface):
             ],
         )
         self._flow_control = _RoutingFlowControl()
+        self._disconnecting = False
 
     def _init_transport(self) -> None:
         """Initialize transport."""
@@ -223,8 +225,12 @@ class Routing(Interface):
         self.xknx.connection_manager.connection_state_changed(
             XknxConnectionState.CONNECTING, self.connection_type
         )
+        self._disconnecting = False
         try:
             await self.transport.connect()
+            if self._disconnecting:
+                # `disconnect()` while the sockets were opened - eg. the user stopped
+                raise CommunicationError("Disconnected while connecting")
         except (OSError, CommunicationError) as ex:
             logger.debug(
                 "Could not establish connection to KNXnet/IP network. %s: %s",
@@ -243,6 +249,7 @@ class Routing(Interface):
 
     async def disconnect(self) -> None:
         """Stop routing."""
+        self._disconnecting = True
         self.transport.stop()
         self.xknx.connection_manager.connection_state_changed(
             XknxConnectionState.DISCONNECTED
